@@ -600,6 +600,15 @@ func record(c *Case, results []*runResult) {
 			break
 		}
 	}
+	if m.deepTail > 0 {
+		lbls = append(lbls, "case:tail-call-issued-by-another-instance-than-the-one-entered")
+	}
+	for _, sp := range c.Specs {
+		if sp.Mem != nil && sp.Mem.Shared {
+			lbls = append(lbls, "case:with-shared-memory")
+			break
+		}
+	}
 	if m.reexpUse > 0 {
 		lbls = append(lbls, "case:re-exported-import-of-a-definer-with-function-imports")
 	}
